@@ -33,42 +33,44 @@ type Obligation struct {
 }
 
 type FuncCtx struct {
-	prog        *Prog
-	pkg         *packages.Package
-	decl        *ast.FuncDecl
-	obj         *types.Func
-	con         *Contract
-	key         string
-	short       string
-	lines       []string
-	obs         []*Obligation
-	nfresh      int
-	useSeq      bool
-	loopOrd     map[ast.Node]int
-	counts      map[string]int
-	lits        map[string]string // literal text -> array const name
-	entry       *State
-	params      map[string]types.Object // contract-visible names -> objects
-	results     []types.Object
-	resNames    []string
-	trusted     map[string]bool // assumed contracts used
-	langsUsed   map[string]bool
-	specUsed    map[string]bool
-	modelVars   map[string]string
-	ghostLocals map[string]types.Object
-	curLoopIdx  []types.Object
-	globals     map[*types.Var]Val
-	pcParts     map[string][]string
-	nclosure    int
-	heapInit    map[string]Term
-	loopEntry   []*Ev
-	heapSort    map[string]string
-	heapWritten map[string]bool
-	hdrOnce     sync.Once
-	hdr         string
-	hdrLines    []string
-	taintOnce   sync.Once
-	taint       *tainter
+	prog           *Prog
+	pkg            *packages.Package
+	decl           *ast.FuncDecl
+	obj            *types.Func
+	con            *Contract
+	key            string
+	short          string
+	lines          []string
+	obs            []*Obligation
+	nfresh         int
+	useSeq         bool
+	loopOrd        map[ast.Node]int
+	counts         map[string]int
+	lits           map[string]string // literal text -> array const name
+	entry          *State
+	params         map[string]types.Object // contract-visible names -> objects
+	results        []types.Object
+	resNames       []string
+	trusted        map[string]bool // assumed contracts used
+	langsUsed      map[string]bool
+	specUsed       map[string]bool
+	modelVars      map[string]string
+	ghostLocals    map[string]types.Object
+	curLoopIdx     []types.Object
+	globals        map[*types.Var]Val
+	pcParts        map[string][]string
+	nclosure       int
+	heapInit       map[string]Term
+	arrAlloc       map[Term]Term
+	pendingInitArr []Term
+	loopEntry      []*Ev
+	heapSort       map[string]string
+	heapWritten    map[string]bool
+	hdrOnce        sync.Once
+	hdr            string
+	hdrLines       []string
+	taintOnce      sync.Once
+	taint          *tainter
 }
 
 func (fx *FuncCtx) emit(line string) { fx.lines = append(fx.lines, line) }
@@ -352,6 +354,11 @@ func (fx *FuncCtx) fresh(t types.Type, hint string) Val {
 			ll := fx.declare(sortArr, hint+"_sl")
 			// element well-formedness is assumed at reads
 			return VStrs{B: bb, O: oo, L: ll, N: n}
+		}
+		if en, ok := elemName(u.Elem()); ok {
+			n := fx.declare(sortInt, hint+"_n")
+			fx.emit(fmt.Sprintf("(assert (and (<= 0 %s) (< %s %s)))", n, n, maxLen))
+			return VRefs{Arr: fx.declare(sortArr, hint+"_refs"), N: n, Elem: en}
 		}
 		if nm, ok := u.Elem().(*types.Named); ok {
 			if st, ok := nm.Underlying().(*types.Struct); ok && st.NumFields() == 1 {
